@@ -6,6 +6,7 @@ require (
 	github.com/fxamacker/cbor/v2 v2.9.2-0.20260331174317-a78e92ec038e
 	github.com/onflow/atree v0.16.1
 	github.com/onflow/cadence v0.0.0
+	github.com/onflow/fixed-point v0.1.1
 	go.opentelemetry.io/otel v1.38.0
 	golang.org/x/text v0.31.0
 )
@@ -23,7 +24,6 @@ require (
 	github.com/logrusorgru/aurora/v4 v4.0.0 // indirect
 	github.com/mattn/go-colorable v0.1.14 // indirect
 	github.com/mattn/go-isatty v0.0.20 // indirect
-	github.com/onflow/fixed-point v0.1.1 // indirect
 	github.com/pmezard/go-difflib v1.0.0 // indirect
 	github.com/rivo/uniseg v0.4.7 // indirect
 	github.com/rogpeppe/go-internal v1.9.0 // indirect
